@@ -57,8 +57,10 @@ def param_set(rng: np.random.Generator) -> dict:
             "temperature_pseudocritical": float(rng.uniform(-115.0, -45.0)),
             "pressure_pseudocritical": float(rng.uniform(600.0, 720.0)),
         }
-        n = int(rng.integers(2, 7))
+        n = int(rng.integers(3, 7))
         p = np.sort(rng.uniform(120.0, 9000.0, n))
+        if rng.random() < 0.5:
+            p = np.roll(p, 1)   # not ascending, and the sorting permutation is a cycle (not its own inverse)
         vals = [*f.values(), *a.values(), *p.tolist()]
         ok = all(abs(x - y) > 1e-3 * max(abs(x), abs(y)) for i, x in enumerate(vals) for y in vals[i + 1:])
         if ok and abs(f["salinity"] - 15.0) > 0.2:
@@ -177,6 +179,15 @@ def sutton_point(rules: dict, gv: dict, dryness: str):
 def build_table(gv: dict, dryness: str, maximum):
     from bluebonnet.fluids.fluid import build_pvt_gas  # noqa: PLC0415
 
+    # the composition is a *mapping*: its key order and container type are the caller's business (a dict written in another
+    # order, a pandas row with alphabetically sorted columns)
+    how = int(round(1e6 * float(gv["Gas Specific Gravity"]))) % 3
+    if how == 1:
+        gv = {k: gv[k] for k in sorted(gv, reverse=True)}
+    elif how == 2:
+        import pandas as pd  # noqa: PLC0415
+
+        gv = pd.Series({k: gv[k] for k in sorted(gv)})
     with warnings.catch_warnings():
         warnings.simplefilter("ignore")
         if maximum is None:
